@@ -52,9 +52,14 @@ Definition b2n (b : bool) : N := if b then 1 else 0.
 Fixpoint le_num (l : list N) : N := match l with [] => 0 | b :: t => b + 256 * le_num t end.
 Fixpoint be_num_acc (acc : N) (l : list N) : N := match l with [] => acc | b :: t => be_num_acc (acc * 256 + b) t end.
 Definition be_num := be_num_acc 0.
+(* List.rev is quadratic; the model uses the linear version everywhere *)
+Definition lrev {A} (l : list A) : list A := rev_append l [].
+Lemma lrev_rev {A} (l : list A) : lrev l = rev l.
+Proof. unfold lrev. symmetry. apply rev_alt. Qed.
+
 Fixpoint le_bytes (n : nat) (v : N) : list N :=
   match n with O => [] | S n' => N.land v 255 :: le_bytes n' (N.shiftr v 8) end.
-Definition be_bytes (n : nat) (v : N) : list N := rev (le_bytes n v).
+Definition be_bytes (n : nat) (v : N) : list N := lrev (le_bytes n v).
 
 (* finite maps N -> N used for probability tables and window buffers *)
 Module PM := PositiveMap.
